@@ -42,6 +42,7 @@ func checkC10(w *World, r *Report) {
 	ruleHandover(w, r, "C10.HANDOVER")
 	ruleLoopVarCapture(w, r, "C10.LOOPVAR")
 	ruleThreadSafeAverage(w, r, "C10.TSMA")
+	ruleNoCallerAlias(w, r, "C10")
 }
 
 // ruleHandover: on every exit path of the bar loop nothing touches the bar state after it was
